@@ -258,6 +258,26 @@ pub fn run(ctx: &Ctx, replay: Option<&J>) -> i32 {
     for w in words(&[0.1, 0.2, 0.3, 1e16, -1e16, 3.0], 4).into_iter().filter(|w| !w.is_empty()) {
         lists.push(w);
     }
+    // long lists of distinct values in every affine arrangement i -> (a*i + b) mod n (a coprime to n):
+    // partial-selection or partial-sort implementations behave like a full sort only on short,
+    // sorted or heavily duplicated input
+    {
+        fn gcd(a: usize, b: usize) -> usize {
+            if b == 0 { a } else { gcd(b, a % b) }
+        }
+        let lens: &[usize] = ctx.tier.pick(&[12, 17, 18, 20, 33, 64][..], &[8, 12, 16, 17, 18, 19, 20, 21, 22, 24, 32, 33, 34, 49, 50, 64, 65, 128][..]);
+        for &n in lens {
+            for a in 1..n {
+                if gcd(a, n) != 1 {
+                    continue;
+                }
+                let offsets: Vec<usize> = ctx.tier.pick(vec![0, 1, n / 2], (0..n).collect());
+                for b in offsets {
+                    lists.push((0..n).map(|i| ((a * i + b) % n) as f64 * 0.5 - (n / 4) as f64).collect());
+                }
+            }
+        }
+    }
     let results: Vec<Res> = par_map(&lists, |l| {
         let src = program(l);
         match eval_fresh(&src) {
@@ -323,7 +343,7 @@ pub fn run(ctx: &Ctx, replay: Option<&J>) -> i32 {
     finish(
         ctx,
         "exploration",
-        "all number lists of length 1..4 (quick) / 1..5 (thorough) over a 9-value alphabet plus periodic extensions to 6..50 and a rounding family; per list one program evaluating sum/prod/avg/min/max/median in the three calling conventions and percentile at 13 p values; references computed by the harness on the same doubles; permutation invariance by grouping lists by multiset; distinct = distinct lists",
+        "all number lists of length 1..4 (quick) / 1..5 (thorough) over a 9-value alphabet plus periodic extensions to 6..50, a rounding family and lists of 12..64 (thorough 8..128) distinct values in every affine arrangement i -> (a*i+b) mod n; per list one program evaluating sum/prod/avg/min/max/median in the three calling conventions and percentile at 13 p values; references computed by the harness on the same doubles; permutation invariance by grouping lists by multiset; distinct = distinct lists",
         true,
         None,
     )
